@@ -1,9 +1,5 @@
-mod alloc;
-mod engines;
-mod fw;
-mod props;
-
-use fw::*;
+use umverif::fw::*;
+use umverif::{alloc, props};
 
 #[global_allocator]
 static GLOBAL: alloc::CountingAlloc = alloc::CountingAlloc;
